@@ -587,6 +587,11 @@ RULES = {
     "R12e": Rule("R12e", "V.extend(E.iter().cloned()) -> V.extend_from_slice(E)  (std: equivalent for Clone elements)",
                  "$$v . extend ( $e . iter ( ) . cloned ( ) )", "$$v . extend_from_slice ( $e )",
                  guard=lambda e: e["$$v"] and all(t not in (";", "=", "{", "}", ",") for t in e["$$v"])),
+    # `*X <= *Y` for a type whose partial_cmp is Some(cmp): std's default `le` is `matches!(partial_cmp, Some(Less | Equal))`
+    "R16": Rule("R16", "*X <= *Y -> (X.cmp(Y) != Greater)", "* $x <= * $y", "( $x . cmp ( $y ) != core :: cmp :: Ordering :: Greater )"),
+    # derived Ord on the Sign enum, called through the method syntax -> named helper carrying the assumed contract
+    "R17": Rule("R17", "self.sign.cmp(&other.sign) -> sign_cmp(&self.sign, &other.sign)",
+                "self . sign . cmp ( & other . sign )", "sign_cmp ( & self . sign , & other . sign )"),
     "R4b": Rule("R4b", "for (a, &b) in I { S } -> for (a, b_r__) in I { let b = *b_r__; S }",
                 "for ( $a , & $b ) in $$i { $$s }",
                 "for ( $a , b_r__ ) in $$i { let $b = * b_r__ ; $$s }"),
